@@ -142,7 +142,7 @@ theorem mem_setSize (l : List Slot) (id : Nat) (sz : Int) (x : Slot) (hx : x ∈
 
 /-- the slot view after the kind of `s` changed to a leaf of size `n` -/
 theorem slotsOf_setKind (w w' : MW) (s : Nat) (n : Int) (ids : List Nat)
-    (hs' : ∀ e, w.sigs.get s = some e → w'.sigs.get s = some { e with kind := .leaf n })
+    (hs' : w'.sigs.get s = (w.sigs.get s).map (fun e => { e with kind := .leaf n }))
     (ho : ∀ i, i ≠ s → w'.sigs.get i = w.sigs.get i) :
     slotsOf w' ids = setSize (slotsOf w ids) s n := by
   induction ids with
@@ -152,25 +152,11 @@ theorem slotsOf_setKind (w w' : MW) (s : Nat) (n : Int) (ids : List Nat)
     · subst his
       cases he : w.sigs.get i with
       | none =>
-        have : w'.sigs.get i = none := by
-          cases hg : w'.sigs.get i with
-          | none => rfl
-          | some e' =>
-            -- an absent signal stays absent: both worlds agree outside the stored `s`
-            exfalso
-            revert hg
-            intro hg
-            exact absurd he (by
-              intro _
-              have := hs'
-              exact (by
-                -- `w'.sigs.get i` is only constrained when `i` is stored; use the hypothesis shape
-                cases hh : w.sigs.get i with
-                | none => exact absurd hg (by intro hg'; exact (by simp_all))
-                | some e => rw [hh] at he; cases he))
-        simp only [slotsOf, he, this, ih]
+        rw [he] at hs'
+        simp only [slotsOf, he, hs', Option.map_none, ih]
       | some e =>
-        simp only [slotsOf, he, hs' e he, ih]
+        rw [he] at hs'
+        simp only [slotsOf, he, hs', Option.map_some, ih]
         rw [setSize_cons_eq _ _ rfl]
         rfl
     · rw [slotsOf, slotsOf, ho i his]
@@ -179,5 +165,79 @@ theorem slotsOf_setKind (w w' : MW) (s : Nat) (n : Int) (ids : List Nat)
       | some e =>
         simp only
         rw [setSize_cons_ne _ _ his, ih]
+
+/-- `modifyLayout` on a well-formed slice after a successful verification: no error, only
+    the followers of `s` move, and the slice is well-formed once `s` has its new size -/
+theorem modifyLayout_spec (w : MW) (cap : Int) (ids : List Nat) (s : Nat) (se : SigE) (z amount : Int)
+    (hnd : ids.Nodup) (hst : ∀ i ∈ ids, (w.sigs.get i).isSome) (hwf : WF cap (slotsOf w ids))
+    (hs : w.sigs.get s = some se) (hkz : se.kind = .leaf z) (hsin : s ∈ ids) (hne : amount ≠ 0)
+    (hver : (if amount > 0 then verifyGrow cap (slotsOf w ids) s amount else verifyShrink z (-amount)) = .ok ()) :
+    ∃ w1, modifyLayout w cap ids s z amount = (w1, none) ∧ w1.msgs = w.msgs ∧
+      (∀ i, ∃ r, w1.sigs.get i = (w.sigs.get i).map (fun e => { e with rel := r })) ∧
+      (∀ i e, w.sigs.get i = some e → i ∉ followersOf ids s → w1.sigs.get i = some e) ∧
+      WF cap (setSize (slotsOf w1 ids) s (z + amount)) := by
+  have hszs : sigSize se = z := by simp [sigSize, hkz]
+  have hfind : find s (slotsOf w ids) = some ⟨s, se.rel, z⟩ := by
+    rw [← hszs]; exact find_slotsOf w s se hs ids hsin hst
+  have hidn : IdsNodup (slotsOf w ids) := by
+    unfold IdsNodup; rw [slotsOf_map_id w ids hst]; exact hnd
+  obtain ⟨l', tail, hres, hl', htail, hwf'⟩ := resize_slots cap (slotsOf w ids) hwf hidn s ⟨s, se.rel, z⟩ hfind amount hne hver
+  simp only at hwf' hres
+  -- ids and sizes are kept
+  have hmapeq : l'.map (fun x => (x.id, x.size)) = (slotsOf w ids).map (fun x => (x.id, x.size)) := by
+    rw [hl', List.map_append, htail, ← List.map_append, upto_append_followers]
+  obtain ⟨b1, b2, b3, b4⟩ := applyDeltas_slots w ids l' hnd hst hmapeq
+  -- the new world
+  have hw1 : ∀ (r : Except LErr (List Slot)), r = .ok l' →
+      ∃ w1 : MW, w1 = { w with sigs := applyDeltas w.sigs (slotsOf w ids) l' } := fun _ _ => ⟨_, rfl⟩
+  generalize hW : ({ w with sigs := applyDeltas w.sigs (slotsOf w ids) l' } : MW) = w1 at b1 b2 b3 b4
+  have hnp : genPanics w1 ids = false := by
+    apply genPanics_false'
+    rw [b1]
+    intro sl hsl
+    obtain ⟨y, hy, hy1, _⟩ := mem_setSize l' s (z + amount) sl hsl
+    have h1 := (WFfrom_mem hwf' y hy).1
+    have hp : (sl.id, sl.size) ∈ (slotsOf w ids).map (fun x => (x.id, x.size)) := by
+      rw [← hmapeq]; exact List.mem_map.mpr ⟨sl, hsl, rfl⟩
+    obtain ⟨o, ho, hoe⟩ := List.mem_map.mp hp
+    simp only [Prod.mk.injEq] at hoe
+    have h2 := (WFfrom_mem hwf o ho).2.1
+    constructor
+    · rw [← hy1]; exact h1
+    · rw [← hoe.2]; exact h2
+  have hunch : ∀ i e, w.sigs.get i = some e → i ∉ followersOf ids s → w1.sigs.get i = some e := by
+    intro i e he hnf
+    apply b4 i e he
+    intro n hn hni
+    rw [hl', List.mem_append] at hn
+    rcases hn with hn | hn
+    · have hnl : n ∈ slotsOf w ids := by
+        rw [← upto_append_followers s (slotsOf w ids)]; exact List.mem_append_left _ hn
+      obtain ⟨_, e0, he0, a1, _⟩ := mem_slotsOf w ids n hnl
+      rw [hni, he] at he0; cases he0
+      exact a1
+    · exfalso
+      apply hnf
+      rw [← followers_ids w s ids hst]
+      have : (n.id, n.size) ∈ (followers s (slotsOf w ids)).map (fun x => (x.id, x.size)) := by
+        rw [← htail]; exact List.mem_map.mpr ⟨n, hn, rfl⟩
+      obtain ⟨o, ho, hoe⟩ := List.mem_map.mp this
+      simp only [Prod.mk.injEq] at hoe
+      rw [← hni, ← hoe.1]
+      exact List.mem_map.mpr ⟨o, ho, rfl⟩
+  refine ⟨w1, ?_, by rw [← hW], b3, hunch, by rw [b1]; exact hwf'⟩
+  unfold modifyLayout
+  simp only
+  by_cases hpos : amount > 0
+  · rw [if_pos hpos] at hres ⊢
+    rw [hres]
+    simp only [hW]
+    split
+    · rfl
+    · rw [hnp]; rfl
+  · rw [if_neg hpos] at hres ⊢
+    rw [hres]
+    simp only [hW, hnp]
+    rfl
 
 end Acme.Mux
